@@ -132,8 +132,16 @@ func history(rng *rand.Rand, h, steps int, fee sdkmath.LegacyDec) (rows []row) {
 	deadline := c.Time.Add(1000 * time.Hour).Unix()
 	users := []string{"u1", "u2"}
 	// magnitudes of the initial pool: from tiny to ~2^120, very unequal reserves included
+	// every third history stays in the machine-word band: both reserves (hence the share supply and,
+	// derived from them, the message amounts) lie in [10^10, 10^18] ~ [2^33, 2^60], so that every
+	// operand of x*y/z fits 64 bits while the products do not (seed C01-s4: a uint64 fast path whose
+	// fits-test looks at the operands only)
+	band := h%3 == 1
 	mag := func() sdkmath.Int {
 		k := rng.Intn(37)
+		if band {
+			k = 10 + rng.Intn(9)
+		}
 		v := new(big.Int).Exp(big.NewInt(10), big.NewInt(int64(k)), nil)
 		v.Add(v, big.NewInt(int64(rng.Intn(1000))))
 		return sdkmath.NewIntFromBigInt(v)
